@@ -149,7 +149,7 @@ class ValueIteration(Solver, CheckpointMixin):
 
         For both span and max_diff convergence tests, the convergence threshold is
         computed as:
-            - epsilon if gamma == 1
+            - epsilon if gamma == 1 (or gamma == 0, where a single sweep is exact)
             - epsilon * (1 - gamma) / gamma otherwise
         following mdptoolbox's implementation.
         """
@@ -158,12 +158,12 @@ class ValueIteration(Solver, CheckpointMixin):
             "span": (
                 self._get_span,
                 "span",
-                lambda eps, gamma: eps * (1 - gamma) / gamma if gamma != 1 else eps,
+                lambda eps, gamma: eps * (1 - gamma) / gamma if 0 < gamma < 1 else eps,
             ),
             "max_diff": (
                 self._get_max_diff,
                 "max delta",
-                lambda eps, gamma: eps * (1 - gamma) / gamma if gamma != 1 else eps,
+                lambda eps, gamma: eps * (1 - gamma) / gamma if 0 < gamma < 1 else eps,
             ),
         }
         self._convergence_test_fn, self._convergence_desc, threshold_fn = (
